@@ -857,6 +857,12 @@ func TestVerifC19Edns(t *testing.T) {
 				b.nets = nil
 			}
 		}
+		remote := vC19RemoteIP(r, b)
+		if (len(remote) == 4 || len(remote) == 16) && r.Intn(12) == 0 {
+			// client_networks names this very client by its bare host address (no prefix length): a form
+			// ecs.Build refuses — the whole [ecs] block is invalid, nothing may be forwarded
+			b.nets = append(append([]string(nil), b.nets...), remote.String())
+		}
 		cfg := &config.Config{CookieSecret: "verif-secret"}
 		if r.Intn(2) == 0 {
 			cfg.NSID = "sdns-verif"
@@ -864,7 +870,6 @@ func TestVerifC19Edns(t *testing.T) {
 		cfg.ECS = config.ECSConfig{Enabled: b.enabled, ForwardV4Max: b.f4, ForwardV6Max: b.f6, MinScopeV4: b.m4, MinScopeV6: b.m6, ClientNetworks: b.nets}
 		e := New(cfg)
 		pol := e.ecsPolicy
-		remote := vC19RemoteIP(r, b)
 		proto := "udp"
 		if r.Intn(4) == 0 {
 			proto = "tcp"
